@@ -134,7 +134,7 @@ Proof. exact update_inplace_is_iterated_setattr. Qed.
    implementation on every run.
    ADDED LATER (below C05_examples; proofs in Inst/RefineMore{,2,3,4}.v), still for
    scalar attributes with pool preparers / transforms and literal defaults:
-   transform_<a>, reset_<a>, del obj.a in place; update(**kws), transform(**fs),
+   transform_<a>, reset_<a>, del obj.a in place; update(a=v, ...), transform(a=f, ...),
    reset() as wholes (final state and first error class); the copy-on-write
    forms on flat receivers incl. the Err outcomes (error class of the
    specification, fresh-only footprint; reset_/update/transform/reset() copy
